@@ -104,6 +104,7 @@ func H_C08_header_maps() {
 		return UnprotectedHeader(m).MarshalCBOR()
 	}
 	b1, e1 := enc()
+	vMapOrder() // the second call draws its own schedule
 	b2, e2 := enc()
 	vAssert("headers: the verdict does not depend on the iteration order", (e1 == nil) == (e2 == nil))
 	if e1 != nil || e2 != nil {
@@ -180,6 +181,7 @@ func H_C08_nested_values() {
 	}
 	vKnown("KF-C08-1", dupNested)
 	b1, e1 := enc()
+	vMapOrder() // the second call draws its own schedule
 	b2, e2 := enc()
 	vAssert("nested: verdict independent of iteration order", (e1 == nil) == (e2 == nil))
 	if e1 != nil || e2 != nil {
@@ -277,6 +279,7 @@ func H_C08_messages() {
 		}
 	}
 	b1, e1 := enc()
+	vMapOrder() // the second call draws its own schedule
 	b2, e2 := enc()
 	vAssert("messages: a well-formed message encodes", e1 == nil && e2 == nil)
 	if e1 != nil || e2 != nil {
@@ -355,7 +358,17 @@ func H_C08_key() {
 	case 2:
 		k = NewKeySymmetric(vBlobN("sym", 1, 64))
 	}
-	switch vChoose("extras", 3) {
+	switch vChoose("extras", 4) {
+	case 3: // one label under two Go keys: a second spelling of a label the key already carries
+		l, sl := c13GoLabel("cl", 3)
+		vAssume(vAnd(sl.i >= -4, sl.i <= 5))
+		if _, same := l.(int64); same {
+			vReach("same go key")
+			return
+		}
+		_, inParams := k.Params[sl.i]
+		vAssume(vOr(inParams, sl.i == 1))
+		k.Params[l] = vBlobN("cv", 0, 66)
 	case 1:
 		k.ID = vBlob("kid")
 		k.Ops = []KeyOp{KeyOpVerify}
@@ -368,6 +381,7 @@ func H_C08_key() {
 		k.BaseIV = vBlobN("biv", 1, 8)
 	}
 	b1, e1 := k.MarshalCBOR()
+	vMapOrder() // the second call draws its own schedule
 	b2, e2 := k.MarshalCBOR()
 	vAssert("key: verdict independent of iteration order", (e1 == nil) == (e2 == nil))
 	if e1 != nil || e2 != nil {
